@@ -349,8 +349,14 @@ func (tree *Rtree) Delete(obj geom.Geom) bool {
 	tree.condenseTree(n)
 	tree.size--
 
-	if !tree.root.leaf && len(tree.root.entries) == 1 {
+	// Shorten the tree while the root has a single child. The child may
+	// itself be an internal node with one entry, because underfull nodes are
+	// re-inserted whole; an internal root with one entry would lose that entry
+	// (and with it every path to a leaf) on the next underflow below it.
+	for !tree.root.leaf && len(tree.root.entries) == 1 {
 		tree.root = tree.root.entries[0].child
+		tree.root.parent = nil
+		tree.height = tree.root.level
 	}
 
 	return true
